@@ -27,6 +27,12 @@ EXHAUSTIVE = {"quick": False, "thorough": False}
 
 
 def floors(tier):
+    f = _floors(tier)
+    f["classes"]["C09:tiny-offset-at-span-edge"] = 100
+    return f
+
+
+def _floors(tier):
     f = {"evals": {"shift.interval": 5000, "shift.point": 2000, "shift.textgrid": 300, "append.tier": 2000,
                    "append.textgrid": 500, "shift.roundtrip": 1000}, "classes": {}}
     for k in ("I", "P"):
@@ -449,6 +455,13 @@ def _workload(tier, rng, shard, nshards):
             else:
                 off = rng.uniform(-hi, hi)
             call(t.editTimestamps, off, rng.choice(RMODES))
+        if i % 5 == 0 and ents:
+            # an entry sits exactly on each end of the span; the offset is tiny against the timestamps (1e-13 .. 1e-9 relative) yet
+            # many ulps: the entry leaves the span and that has to be reported
+            edge = make_tier(kind, "edge", ents, ents[0][0], ents[-1][-2])
+            off = rng.choice([-1, 1]) * rng.choice([1e-13, 1e-11, 1e-10, 3e-10, 8e-10]) * max(ents[-1][-2], 1e-3) * rng.choice([1.0, 1.0, 0.37])
+            call(edge.editTimestamps, off, rng.choice(RMODES))
+            REC.cls("C09:tiny-offset-at-span-edge")
         if i % 4 == 0:
             roundtrip(t, abs(rng.choice(OFFSETS + [rng.uniform(0, 3)])))
         if i % 3 == 0:
